@@ -794,3 +794,44 @@ Example resume_example :
      (Wake, []); (LockOk, []); (Tick 9, [])]
   /\ m_lock (mon_run (mon0 true) [(Wake, [CallLock]); (LockOk, []); (Tick 5, [Eval 1 5])]) = LHeld.
 Proof. split; vm_compute; reflexivity. Qed.
+
+(* ------------------------------------------------------------------------------------------------------------ *)
+(* 7. LastEval belongs to the shared group record: untouched by evaluator replies and by re-locks                *)
+(* ------------------------------------------------------------------------------------------------------------ *)
+
+(* an evaluator reply (incident opened / closed, notifications) changes nothing the gate or the pacing depend on *)
+Theorem response_keeps_pacing : forall mi s g st,
+  step_i mi s (Response g st) = (s, []) /\ step_s mi s (Response g st) = (enter_wait s, []).
+Proof. intros mi [p d c gs] g st. unfold step_s, step_i. destruct p; split; reflexivity. Qed.
+
+Definition touches_records (e : event) : bool := match e with Tick _ | Refresh _ _ => true | _ => false end.
+
+(* expiry, reconnect, unlock, lock errors, re-lock, wake-ups, replies: the group records (every LastEval) stay as they
+   are -- a request goroutine started by a later lock acquisition paces against the same LastEval values *)
+Theorem relock_keeps_pacing : forall mi s e, touches_records e = false ->
+  groups (fst (step_i mi s e)) = groups s /\ groups (fst (step_s mi s e)) = groups s.
+Proof.
+  intros mi [p d c gs] e He.
+  assert (H : groups (fst (step_i mi (mkState p d c gs) e)) = gs).
+  { unfold step_i, set_ph. destruct e; try discriminate; destruct p; simpl; try reflexivity; destruct c; reflexivity. }
+  split; [exact H | unfold step_s; simpl; rewrite groups_enter_wait; exact H].
+Qed.
+
+Theorem relock_keeps_pacing_run : forall mi tr s,
+  (forall e, In e tr -> touches_records e = false) -> groups (fst (run (step_s mi) s tr)) = groups s.
+Proof.
+  induction tr as [|e r IH]; intros s H; [reflexivity|].
+  cbn [run]. cbv zeta. simpl. rewrite IH; [| intros e' He'; apply H; right; exact He'].
+  apply (proj2 (relock_keeps_pacing mi s e (H e (or_introl eq_refl)))).
+Qed.
+
+(* non-vacuity: interval 30; evaluated at 100 s; the incident closes (reply OK); expiry, release, re-lock 2 ms later:
+   nothing at 100.002 s, nothing at 130 s - 1 ns, again at 130 s + 1 ns *)
+Example response_relock_example :
+  snd (run (step_s 30) (init_state true one_group)
+         [Wake; LockOk; Tick 100000000000; Response 1 3; Response 1 1; Tick 100001000000; Expired; Wake; UnlockOk; Wake; LockOk;
+          Tick 100002000000; Tick 129999999999; Tick 130000000001])
+  = [(Wake, [CallLock]); (LockOk, []); (Tick 100000000000, [Eval 1 100000000000]); (Response 1 3, []); (Response 1 1, []);
+     (Tick 100001000000, []); (Expired, []); (Wake, [CallUnlock]); (UnlockOk, []); (Wake, [CallLock]); (LockOk, []);
+     (Tick 100002000000, []); (Tick 129999999999, []); (Tick 130000000001, [Eval 1 130000000001])].
+Proof. vm_compute. reflexivity. Qed.
